@@ -737,6 +737,7 @@ fn main() {
             let rs: Vec<String> = vals.iter().map(|v| v.render()).collect();
             let ck: Vec<String> = vals.iter().map(coarse_key).collect();
             let (mut pairs, mut coarse) = (0u64, 0u64);
+            let mut reported = false;
             for i in 0..vals.len() {
                 for j in 0..vals.len() {
                     if i == j {
@@ -753,6 +754,10 @@ fn main() {
                     let body = format!("vals {};{}", rs[i], rs[j]);
                     if pvs[i].cmp(&pvs[j]) == Ordering::Equal {
                         rep.count("law_violation:ord-equal-distinct-values");
+                        if reported {
+                            continue; // one witness per family; the counter keeps the total
+                        }
+                        reported = true;
                         rep.spec_violation(
                             &known,
                             "ord-equal-distinct-values",
@@ -819,6 +824,7 @@ fn main() {
     }
 
     // ---------------- 1. laws on triples + model agreement ----------------
+    let t_start = std::time::Instant::now();
     let mut first_break: Option<String> = None;
     for chunk in sets.chunks(4000) {
         let rendered: Vec<String> = chunk.iter().map(|s| join_vals(s)).collect();
@@ -901,6 +907,7 @@ fn main() {
         }
     }
 
+    let t_sets = t_start.elapsed().as_secs_f64();
     // ---------------- 2. sort() and PropertyIndex under several insertion orders ----------------
     let mut lines = vec![];
     let mut range_q: Vec<Vec<(usize, usize)>> = vec![];
@@ -1031,6 +1038,7 @@ fn main() {
         }
     }
 
+    let t_sort = t_start.elapsed().as_secs_f64() - t_sets;
     // ---------------- 3. the conversion `i64 as f64` against the model's F64.cast ----------------
     if args.replay.is_none() {
         let mut ints: Vec<i64> = vec![0, 1, -1, i64::MAX, i64::MIN, i64::MAX - 1, i64::MIN + 1];
@@ -1058,10 +1066,18 @@ fn main() {
             });
         }
         let mut mism = 0u64;
-        for chunk in ints.chunks(500) {
-            let line = format!("cast {}", chunk.iter().map(|i| i.to_string()).collect::<Vec<_>>().join(","));
-            let rp = driver::batch(&exe, &[line]);
-            let got: Vec<&str> = rp[0].strip_prefix("ok ").unwrap_or("").split(',').collect();
+        let chunks: Vec<&[i64]> = ints.chunks(500).collect();
+        let lines: Vec<String> =
+            chunks.iter().map(|c| format!("cast {}", c.iter().map(|i| i.to_string()).collect::<Vec<_>>().join(","))).collect();
+        let rp = driver::par_batch(&exe, &lines, 8);
+        for (chunk, reply) in chunks.iter().zip(rp.iter()) {
+            let got: Vec<&str> = reply.strip_prefix("ok ").unwrap_or("").split(',').collect();
+            if got.len() != chunk.len() {
+                mism += 1;
+                if first_break.is_none() {
+                    first_break = Some(format!("cast request of {} integers answered with {} results: {}", chunk.len(), got.len(), reply));
+                }
+            }
             for (i, g) in chunk.iter().zip(got.iter()) {
                 rep.count("cast_checked");
                 let want = format!("{:016x}", (*i as f64).to_bits());
@@ -1076,6 +1092,9 @@ fn main() {
         rep.count_n("cast_mismatch", mism);
     }
 
+    if std::env::var("C10_TIMING").is_ok() {
+        eprintln!("sections: sets {:.1}s, sort/index {:.1}s, cast {:.1}s", t_sets, t_sort, t_start.elapsed().as_secs_f64() - t_sets - t_sort);
+    }
     if let Some(body) = first_break {
         if rep.spec_violations.is_empty() {
             rep.correspondence_break(
